@@ -610,6 +610,28 @@ func (x *c05bRun) reg(ownerOrd int, ttl, max int64, ren bool) {
 	x.emit(res, "reg", vh.I(int64(ownerOrd)), vh.I(ttl), vh.I(max), c05bB(ren), vh.I(x.now))
 }
 
+// batchReg: a leased secret issued to a fresh BATCH token (700 h, beyond every bound the histories ask for, so the cap by
+// the token's own expiry never binds). Batch tokens have no lease; the secret lease carries ClientTokenType = batch.
+func (x *c05bRun) batchReg(ttl, max int64, ren bool) {
+	x.now++
+	k := x.k
+	cl, resp := vhReq(k.c, logical.UpdateOperation, "auth/token/create", k.root,
+		map[string]any{"type": "batch", "ttl": "700h", "policies": []string{"c05bpol"}})
+	res := c05bErrClass(resp, cl)
+	if cl == "ok" && resp != nil && resp.Auth != nil {
+		bt := resp.Auth.ClientToken
+		cl, resp = vhReq(k.c, logical.ReadOperation, fmt.Sprintf("r5/lease/k%d", x.now), bt,
+			map[string]any{"ttl": int(ttl), "max": int(max), "renewable": ren})
+		res = c05bErrClass(resp, cl)
+		if cl == "ok" && resp != nil && resp.Secret != nil {
+			id, _ := resp.Data["secret"].(string)
+			l := k.add(resp.Secret.LeaseID, strings.TrimPrefix(id, "canary-"), "")
+			res = fmt.Sprintf("ok:%d:%d", l.ord, c05bMin(resp.Secret.TTL))
+		}
+	}
+	x.emit(res, "batchreg", vh.I(ttl), vh.I(max), c05bB(ren), vh.I(x.now))
+}
+
 // tokCreate: an orphan child of root (so that revoking another token does not cascade into it)
 func (x *c05bRun) tokCreate(ttl, emax int64, ren bool) {
 	x.now++
@@ -1019,6 +1041,25 @@ func c05bDirected() []func(x *c05bRun) {
 			x.restart(0)
 			x.renew(1, 60)
 		},
+		func(x *c05bRun) { // leases issued to a batch token: renewal within the maximum; expired (lost timer) => refused; non-renewable (F64)
+			x.batchReg(3600, 7200, true)
+			x.renew(1, 600)
+			x.age(1, 3000)
+			x.renew(1, 36000)
+			x.batchReg(600, 3600, true)
+			x.freeze(true)
+			x.revoke(2, false)
+			x.renew(2, 60)
+			x.age(1, 7200)
+			x.renew(1, 60)
+			x.freeze(false)
+			x.batchReg(600, 3600, false)
+			x.renew(3, 60)
+			x.restart(1)
+			x.renew(3, 60)
+			x.revoke(3, true)
+			x.renew(3, 60)
+		},
 		func(x *c05bRun) { // token revocation cascades into its leases under a transiently failing backend; root token
 			x.tokCreate(7200, 0, true)
 			x.reg(1, 3600, 0, true)
@@ -1237,7 +1278,11 @@ func TestVerifC05b(t *testing.T) {
 						}
 					}
 				}
-				x.reg(ownerOrd, r.PickInt(ttls), r.PickInt(maxs), !r.Chance(20))
+				if r.Chance(12) {
+					x.batchReg(r.PickInt(ttls), r.PickInt([]int64{3600, 7200, 10800, 172800}), !r.Chance(20))
+				} else {
+					x.reg(ownerOrd, r.PickInt(ttls), r.PickInt(maxs), !r.Chance(20))
+				}
 			case w < 29:
 				x.tokCreate(r.PickInt(ttls), r.PickInt([]int64{0, 0, 7200, 172800}), !r.Chance(20))
 			case w < 53:
